@@ -42,11 +42,11 @@ func LockW(l *LockState, where string) {
 		s.mu.Lock()
 		l.pendingW++
 		s.mu.Unlock()
-		s.park(t, pending{kind: "lock-acquire", obj: where, ready: l.freeForWriter})
+		s.park(t, pending{kind: "lock-acquire", obj: where, ready: l.freeForWriter, lock: l})
 		s.mu.Lock()
 		l.pendingW--
 	} else {
-		s.park(t, pending{kind: "lock", obj: where, ready: l.freeForWriter})
+		s.park(t, pending{kind: "lock", obj: where, ready: l.freeForWriter, lock: l})
 		s.mu.Lock()
 	}
 	if !l.freeForWriter() {
@@ -134,7 +134,7 @@ func LockR(l *LockState, where string) {
 		return
 	}
 	wp := s.WritePref
-	s.park(t, pending{kind: "rlock", obj: where, ready: func() bool { return l.freeForReader(wp) }})
+	s.park(t, pending{kind: "rlock", obj: where, ready: func() bool { return l.freeForReader(wp) }, lock: l})
 	s.mu.Lock()
 	if l.readers == nil {
 		l.readers = map[*Thread]int{}
